@@ -40,6 +40,7 @@ import Cog.Sem.WidenChainN
 import Cog.Sem.WidenWitness
 import Cog.Sem.WidenStruct
 import Cog.Gen.Chains
+import Cog.Front.JsonSchemaSoundMain
 namespace Cog.Sem
 open Cog.IR GoVal
 
@@ -353,5 +354,157 @@ theorem C01_pass_widening_counterexample : ¬ C01_pass_widening_full := by
 /-- a member outside the enum is rejected at the source (and accepted by `den`, which only reads the kind) -/
 example : srcDen 8 exSrc (.ref "p" "Root" {}) (.obj [("name", .str "x"), ("mode", .str "up")]) = false := by
   decide +kernel
+
+/-! ## (b) parser soundness of the JSON Schema front-end
+    ---- BEGIN block of the c01-front builder (model: Cog/Front/JsonSchema*.lean; tie: stream `c01-front`) ----
+
+  `frontEnd pkg defs fuel root` is the literal model of internal/jsonschema/generator.go from the compiled
+  library value (`JS`) to the full IR; `jsValid` / `jsValidX` the validation semantics of that value (plain /
+  outside the three recorded exclusions S1 integers beyond int64, S2 empty optional collections, S3 integers
+  ≥ 2^53 under `any`); `FragJS` the decidable fragment (Cog/Front/JsonSchemaFrag.lean).  `fmt` is the oracle for
+  asserted `format`s: the theorems hold for every oracle. -/
+
+open Cog.Front.JsonSchema in
+/-- the FULL statement of (b) for JSON Schema inputs: every document valid against the root definition is in
+    `srcDen` of the IR the front-end builds.  False on the current tree (counterexample below); proved on `FragJS`
+    for the strict reading of validity. -/
+def C01_jsonschema_parser_sound_full : Prop :=
+  ∀ (fmt : String → String → Bool) (pkg : String) (defs : Defs) (root : String) (fuel : Nat) (S : Schemas) (n : Nat) (j : Json),
+    frontEnd pkg defs fuel (refTo root) = .ok S → wfDeep j = true → jsValid fmt defs n (refTo root) j = true →
+    ∃ n', srcDen n' S (.ref pkg root {}) j = true
+
+open Cog.Front.JsonSchema in
+/-- PARSER SOUNDNESS on the fragment: for a compiled schema of `FragJS`, every document (without duplicate
+    member names) that is valid against the root definition, outside the recorded exclusions, belongs to the
+    source-side document language of the IR the front-end builds from the schema. -/
+theorem C01_jsonschema_parser_sound_partial (fmt : String → String → Bool) (pkg : String) (defs : Defs) (root : String)
+    (fuel : Nat) (S : Schemas) (hF : FragJS defs (refTo root) = true) (hS : frontEnd pkg defs fuel (refTo root) = .ok S)
+    (n : Nat) (j : Json) (hwf : wfDeep j = true) (hv : jsValidX fmt defs n (refTo root) j = true) :
+    ∃ n', srcDen n' S (.ref pkg root {}) j = true :=
+  ⟨n + 2, parser_sound fmt pkg defs root fuel S hF hS n j hwf hv⟩
+
+open Cog.Front.JsonSchema in
+/-- the same with the fuel spelled out (what the driver evaluates on the REAL front-end output) -/
+theorem C01_jsonschema_parser_sound_fuel_partial (fmt : String → String → Bool) (pkg : String) (defs : Defs) (root : String)
+    (fuel : Nat) (S : Schemas) (hF : FragJS defs (refTo root) = true) (hS : frontEnd pkg defs fuel (refTo root) = .ok S)
+    (n : Nat) (j : Json) (hwf : wfDeep j = true) (hv : jsValidX fmt defs n (refTo root) j = true) :
+    srcDen (n + 2) S (.ref pkg root {}) j = true :=
+  parser_sound fmt pkg defs root fuel S hF hS n j hwf hv
+
+open Cog.Front.JsonSchema in
+/-- (b) + (c) + (d), the whole property for JSON Schema inputs on the fragment: a schema-valid document decodes
+    without error into the Go types generated from the schema (front-end, then the regenerated Go chain) and
+    re-encodes to a document that is JSON-equal up to omission of null members. -/
+theorem C01_jsonschema_end_to_end_partial (fmt : String → String → Bool) (pkg : String) (defs : Defs) (root : String)
+    (fuel : Nat) (S S' : Schemas) (hF : FragJS defs (refTo root) = true) (hS : frontEnd pkg defs fuel (refTo root) = .ok S)
+    (hP : PlainS S = true) (hrun : runChain goChain S = .ok S')
+    (n : Nat) (j : Json) (hwf : wfDeep j = true) (hv : jsValidX fmt defs n (refTo root) j = true) :
+    ∃ j', goRoundTrip (n + 2 + 1) S' pkg root j = .ok j' ∧ Json.eqv j' j = true :=
+  C01_source_roundtrip_struct_partial S S' hP hrun (n + 2) pkg root j
+    (parser_sound fmt pkg defs root fuel S hF hS n j hwf hv)
+
+namespace FrontEx
+open Cog.Front.JsonSchema
+
+def strS : JS := .mk { types := ["string"] } [] [] [] [] .none .none .none
+def nullS : JS := .mk { types := ["null"] } [] [] [] [] .none .none .none
+
+/-- `R = {name: string (required), mode?: $ref M, next?: $ref R | null, tags?: [string], opts?: {k?: "a"|"b"},
+    n?: integer | null}`, `M = enum asc|desc` (properties key-sorted as the encoder emits them) -/
+def exDefs : Defs := [
+  ("R", .mk { types := ["object"], hasProps := true, required := ["name"] } [] [] []
+      [("mode", refTo "M"), ("n", .mk { types := ["integer", "null"] } [] [] [] [] .none .none .none),
+       ("name", strS),
+       ("next", .mk { hasAnyOf := true } [] [refTo "R", nullS] [] [] .none .none .none),
+       ("opts", .mk { types := ["object"], hasProps := true } [] [] []
+           [("k", .mk { types := ["string"], enum := some [.str "a", .str "b"] } [] [] [] [] .none .none .none)] (.bool false) .none .none),
+       ("tags", .mk { types := ["array"] } [] [] [] [] .none (.one strS) .none)]
+      (.bool false) .none .none),
+  ("M", .mk { types := ["string"], enum := some [.str "asc", .str "desc"] } [] [] [] [] .none .none .none)]
+
+def exDoc : Json :=
+  .obj [("name", .str "x"), ("n", .null), ("opts", .obj [("k", .str "b")]), ("tags", .arr [.str "t"]),
+        ("next", .obj [("name", .str "y"), ("mode", .str "desc"), ("next", .null), ("n", .num 12)])]
+
+def always : String → String → Bool := fun _ _ => true
+
+/-- non-vacuity: the hypotheses of the parser-soundness and end-to-end theorems hold for the example (fragment,
+    front-end succeeds, `PlainS` and the Go chain on the front-end's output, strict validity), and so do the
+    conclusions evaluated on the models; a document with an undeclared member is not valid -/
+example : FragJS exDefs (refTo "R") = true ∧ wfDeep exDoc = true ∧
+    jsValidX always exDefs 8 (refTo "R") exDoc = true ∧
+    jsValid always exDefs 8 (refTo "R") (.obj [("name", .str "x"), ("zz", .num 4)]) = false ∧
+    (match frontEnd "p" exDefs 8 (refTo "R") with
+     | .ok S =>
+       PlainS S && srcDen 10 S (.ref "p" "R" {}) exDoc &&
+       (match runChain goChain S with
+        | .ok S' => den 11 S' (.ref "p" "R" {}) exDoc && roundTripsOK S' "p" "R" exDoc
+        | _ => false)
+     | _ => false) = true := by
+  refine ⟨by decide +kernel, by decide +kernel, by decide +kernel, by decide +kernel, by decide +kernel⟩
+
+/-! ### the full statement of (b) is false on the current tree: JSON Schema `integer` is unbounded, the IR scalar is int64 -/
+
+def cxDefs : Defs := [("R", .mk { types := ["integer"] } [] [] [] [] .none .none .none)]
+/-- the document `9223372036854775808` (2^63) -/
+def cxDoc : Json := .num (4 * 9223372036854775808)
+
+def int64Alias (S : Schemas) : Bool :=
+  match Schemas.locateObject S "p" "R" with
+  | some o => (match o.ty with | .scalar "int64" _ _ _ => true | _ => false)
+  | none => false
+
+theorem int64Alias_srcDen (S : Schemas) (h : int64Alias S = true) (n' : Nat) :
+    srcDen n' S (.ref "p" "R" {}) cxDoc = false := by
+  cases n' with
+  | zero => rfl
+  | succ k =>
+    unfold int64Alias at h
+    simp only [srcDen, xden]
+    cases ho : Schemas.locateObject S "p" "R" with
+    | none => rfl
+    | some o =>
+      simp only [ho] at h ⊢
+      cases hty : o.ty with
+      | scalar kind v cs om =>
+        simp only [hty] at h ⊢
+        have hk : kind = "int64" := by
+          split at h
+          · rename_i heq; injection heq with e1
+          · cases h
+        subst hk
+        have hd : denScalar "int64" cxDoc = false := by decide +kernel
+        have hn : cxDoc.isNull = false := rfl
+        rw [hd, hn]
+        simp
+      | ref _ _ _ | cref _ _ _ _ | array _ _ | map _ _ _ | struct _ _ _ _ | enum _ _ | disj _ _ _ | inter _ _ | slot _ _ | bad _ _ =>
+        simp [hty] at h
+
+end FrontEx
+
+open Cog.Front.JsonSchema FrontEx in
+/-- `{"$ref": "#/definitions/R", "definitions": {"R": {"type": "integer"}}}` and the document 2^63: valid against the
+    schema, in `srcDen` of the front-end's IR at no fuel (replayed on the real front-end: pinned case `pinint64` of
+    stream c01-front).  The schema IS in `FragJS`: what fails is hypothesis S1 of the strict reading. -/
+theorem C01_jsonschema_parser_sound_counterexample : ¬ C01_jsonschema_parser_sound_full := by
+  intro hfull
+  have hshape : (match frontEnd "p" cxDefs 4 (refTo "R") with
+      | .ok S => int64Alias S | _ => false) = true := by decide +kernel
+  cases hr : frontEnd "p" cxDefs 4 (refTo "R") with
+  | ok S =>
+    rw [hr] at hshape
+    obtain ⟨n', h⟩ := hfull always "p" cxDefs "R" 4 S 2 cxDoc hr (by decide +kernel) (by decide +kernel)
+    rw [int64Alias_srcDen S hshape n'] at h
+    cases h
+  | err e => rw [hr] at hshape; cases hshape
+  | panic e => rw [hr] at hshape; cases hshape
+
+open Cog.Front.JsonSchema FrontEx in
+/-- the witness is inside the fragment and valid, but not strictly valid (S1) -/
+example : FragJS cxDefs (refTo "R") = true ∧ jsValid always cxDefs 2 (refTo "R") cxDoc = true ∧
+    jsValidX always cxDefs 2 (refTo "R") cxDoc = false := by
+  refine ⟨by decide +kernel, by decide +kernel, by decide +kernel⟩
+
+-- ---- END block of the c01-front builder ----
 
 end Cog.Sem
